@@ -6,6 +6,7 @@ CONSTANTS
   CellChars <- Cells
   MaxChars = 3
   MaxCells = 2
+  MaxRaw = 0
   MaxRows = 2
   LoaderRefusesClash = TRUE
 INVARIANT TypeOK
